@@ -292,7 +292,10 @@ func genPolygonF(r *rand.Rand, t tmsInfo, ids []int, allowOutside bool) (fgeom, 
 	mx, my := (t.maxX-t.minX)*0.1, (t.maxY-t.minY)*0.1
 	cx := t.minX + mx + r.Float64()*(t.maxX-t.minX-2*mx)
 	cy := t.minY + my + r.Float64()*(t.maxY-t.minY-2*my)
-	switch k := r.Intn(22); {
+	switch k := r.Intn(24); {
+	case k >= 22: // no area at all: the library returns a point / line for it under -keeppointsandlines, nothing otherwise
+		ring, shape := genDegenerateRing(r, cx, cy, pxCoarse)
+		return fgeom{Kind: 3, Parts: [][][][2]float64{{ring}}}, shape
 	case k >= 20: // already ON the pixel grid of the deepest requested tile matrix (data that went through the tool
 		// before), a rectangle with 2-14 rectangular holes: the result for that tile matrix is the polygon itself
 		cen := func(i, j int64) [2]float64 {
@@ -337,6 +340,20 @@ func genPolygonF(r *rand.Rand, t tmsInfo, ids []int, allowOutside bool) (fgeom, 
 	}
 }
 
+// genDegenerateRing: an outer ring of two distinct points (WKB POLYGON((a, b, a)): the encoder closes it, the tool's
+// reader strips the closing point again) a few pixels or less than a pixel apart, or of a single point
+func genDegenerateRing(r *rand.Rand, cx, cy, px float64) ([][2]float64, string) {
+	a := [2]float64{round3(cx), round3(cy)}
+	switch r.Intn(3) {
+	case 0:
+		return [][2]float64{a}, "degenerate: one-point ring"
+	case 1:
+		return [][2]float64{a, {round3(cx + px*(1+5*r.Float64())), round3(cy + px*(4*r.Float64()-2))}}, "degenerate: two-point ring"
+	default:
+		return [][2]float64{a, {round3(cx + px*0.3*r.Float64() + 0.002), round3(cy + px*0.3*r.Float64())}}, "degenerate: two-point ring below a pixel"
+	}
+}
+
 func genC13Table(r *rand.Rand, idx int, t tmsInfo, ids []int, kind string, n int, allowOutside bool, hazard bool) c13Table {
 	spec := tableSpec{Name: fmt.Sprintf("%s_%d", c12Words[r.Intn(len(c12Words))], idx), Srs: t.srs, GCol: []string{"geom", "geometry", "shape"}[r.Intn(3)]}
 	switch kind {
@@ -349,6 +366,7 @@ func genC13Table(r *rand.Rand, idx int, t tmsInfo, ids []int, kind string, n int
 	default:
 		spec.GType = "LINESTRING"
 	}
+	spec.Z, spec.M = []int{0, 0, 2}[r.Intn(3)], []int{0, 0, 2}[r.Intn(3)] // prohibited / optional; the features are XY
 	pk := colSpec{Name: "fid", Type: "INTEGER", NotNull: true, PK: 1}
 	nattr := r.Intn(5)
 	if hazard {
@@ -406,7 +424,21 @@ func genC13Table(r *rand.Rand, idx int, t tmsInfo, ids []int, kind string, n int
 		}
 		tab.Feats = append(tab.Feats, f)
 	}
+	tab.recordSourceExtent(r)
 	return tab
+}
+
+// recordSourceExtent: what the source's gpkg_contents row says about the table (NULL / exact / loose / stale)
+func (tab *c13Table) recordSourceExtent(r *rand.Rand) {
+	var pts [][2]float64
+	for _, f := range tab.Feats {
+		for _, p := range f.G.Parts {
+			for _, ring := range p {
+				pts = append(pts, ring...)
+			}
+		}
+	}
+	tab.Spec.recordExtent(r, pts)
 }
 
 var c13Targets = []struct {
@@ -499,7 +531,38 @@ func genC13Case(r *rand.Rand, id int, class string) c13Case {
 		if i == 0 && r.Intn(3) > 0 {
 			kind = "polygon"
 		}
-		k.Tables = append(k.Tables, genC13Table(r, i, t, k.Ids, kind, r.Intn(3*7+2), allowOutside, r.Intn(3) == 0))
+		nfeat := r.Intn(3*7 + 2)
+		if class == "degenerate polygons + keep" {
+			// -keeppointsandlines on, nothing outside the grid, and in the first table several polygons without area
+			// (rings of one or two points; in a multipolygon table as one of the parts)
+			k.Keep, allowOutside = true, false
+			if i == 0 {
+				kind, nfeat = []string{"polygon", "polygon", "multipolygon"}[r.Intn(3)], 2+r.Intn(12)
+			}
+		}
+		tab := genC13Table(r, i, t, k.Ids, kind, nfeat, allowOutside, r.Intn(3) == 0)
+		if class == "degenerate polygons + keep" && i == 0 {
+			for fi := range tab.Feats {
+				if fi > 0 && r.Intn(2) == 0 {
+					continue
+				}
+				f := &tab.Feats[fi]
+				first := f.G.Parts[0][0][0]
+				ring, shape := genDegenerateRing(r, first[0], first[1], t.px0/math.Pow(2, float64(k.Ids[r.Intn(len(k.Ids))])))
+				switch {
+				case f.G.Kind == 3:
+					f.G.Parts, f.Shape = [][][][2]float64{{ring}}, shape
+				case r.Intn(2) == 0: // one part among ordinary ones
+					pos := r.Intn(len(f.G.Parts) + 1)
+					f.G.Parts = append(f.G.Parts[:pos:pos], append([][][][2]float64{{ring}}, f.G.Parts[pos:]...)...)
+					f.Shape += "+" + shape
+				default:
+					f.G.Parts, f.Shape = [][][][2]float64{{ring}}, "multi:"+shape
+				}
+			}
+			tab.recordSourceExtent(r)
+		}
+		k.Tables = append(k.Tables, tab)
 	}
 	switch class {
 	case "pre-existing + overwrite", "pre-existing, no overwrite", "invalid tms":
@@ -516,6 +579,7 @@ func genC13Case(r *rand.Rand, id int, class string) c13Case {
 				if r.Intn(3) == 0 {
 					spec = genTable(r, 10+j, spec.Srs)
 				}
+				spec.Z, spec.M, spec.SrcExtent, spec.SrcExtentMode = 0, 0, nil, "" // scaffolding, written in process by the harness
 				p.Tables = append(p.Tables, spec)
 				p.Calls = append(p.Calls, c12Call{Table: spec.Name, Feats: genStream(r, spec, 1+r.Intn(6), 0, &last, 0)})
 			}
@@ -1078,7 +1142,7 @@ func c13Oracle(k c13Case, run c13Run, exp *c13Expect, rundir string) []c12Proble
 			for _, t := range tabs {
 				names = append(names, t.Name)
 			}
-			bad(fmt.Sprintf("file %s holds %d tables, expected %d (something of an old file survived overwrite?)", p, len(tabs), len(old)+len(k.Tables)), names, nil)
+			bad(fmt.Sprintf("file %s holds %d tables, expected %d (a spatial table of the source is missing, or something of an old file survived overwrite?)", p, len(tabs), len(old)+len(k.Tables)), names, nil)
 			continue
 		}
 		for ti, t := range k.Tables {
@@ -1113,12 +1177,74 @@ func c13Oracle(k c13Case, run c13Run, exp *c13Expect, rundir string) []c12Proble
 					nonEmpty++
 				}
 			}
+			// the recorded extent is the bounding box of what was written, whatever extent the source records
+			var box []float64
+			for _, er := range rows {
+				box = growBox(box, er.G)
+			}
+			if !extentEqual(ot.Extent, box) {
+				bad(fmt.Sprintf("%s table %s: recorded extent is not the bounding box of the written geometries (NULL if there is none); the source records %v (%s)",
+					p, ot.Name, t.Spec.SrcExtent, t.Spec.SrcExtentMode), fmtExtent(ot.Extent), box)
+			}
 			if ot.RtreeCount != nonEmpty {
 				bad(fmt.Sprintf("%s table %s: rtree has %d entries for %d non-empty geometries", p, ot.Name, ot.RtreeCount, nonEmpty), ot.RtreeCount, nonEmpty)
 			}
 		}
 	}
 	return ps
+}
+
+// growBox: [minx miny maxx maxy] over all coordinates that are not NaN (POINT EMPTY is (NaN, NaN)); nil = none yet
+func growBox(b []float64, g geom.Geometry) []float64 {
+	pt := func(p [2]float64) {
+		if p[0] != p[0] || p[1] != p[1] {
+			return
+		}
+		if b == nil {
+			b = []float64{p[0], p[1], p[0], p[1]}
+			return
+		}
+		b[0], b[1], b[2], b[3] = math.Min(b[0], p[0]), math.Min(b[1], p[1]), math.Max(b[2], p[0]), math.Max(b[3], p[1])
+	}
+	rings := func(rs [][][2]float64) {
+		for _, r := range rs {
+			for _, p := range r {
+				pt(p)
+			}
+		}
+	}
+	switch v := g.(type) {
+	case geom.Point:
+		pt(v)
+	case geom.LineString:
+		rings([][][2]float64{v})
+	case geom.MultiPoint:
+		rings([][][2]float64{v})
+	case geom.Polygon:
+		rings(v)
+	case geom.MultiLineString:
+		rings(v)
+	case geom.MultiPolygon:
+		for _, p := range v {
+			rings(p)
+		}
+	}
+	return b
+}
+
+func extentEqual(e []*float64, box []float64) bool {
+	if len(e) != 4 {
+		return false
+	}
+	if box == nil {
+		return e[0] == nil && e[1] == nil && e[2] == nil && e[3] == nil
+	}
+	for i := range e {
+		if e[i] == nil || *e[i] != box[i] {
+			return false
+		}
+	}
+	return true
 }
 
 func sortedFileNames(m map[string][]c13OTable) []string {
@@ -1243,7 +1369,7 @@ func genPath(r *rand.Rand) string {
 func runC13(c *hc.Ctx) error {
 	c.CorrInit("Texel.Corr.C13", "theories/Corr/C13.v", 12)
 	c.Sum.Rule = "random source GeoPackages (1-3 tables: polygon / multipolygon / point / linestring, 0-4 attribute columns INTEGER / REAL / TEXT / DATETIME / DATE / TIMESTAMP (date/times written to the source in the GeoPackage text forms 2023-05-17 and 2023-05-17T23:59:59.891Z: midnight, whole seconds, non-zero milliseconds, nanoseconds, before 1970, NULL), geometry column anywhere, 0-22 features; " +
-		"polygons: blobs of a few pixels of a requested level, sub-pixel (collapse), dumbbells whose corridor is below a coarse pixel (split), with holes, (partly) outside the grid) " +
+		"the source's gpkg_geometry_columns z / m prohibited (0) or optional (2), its recorded extent NULL / exact / loose (larger) / stale (elsewhere); polygons: rings of one point or of two distinct points (no area: WKB POLYGON((a,b,a)); also as one part of a multipolygon; a class of its own with -keeppointsandlines on), blobs of a few pixels of a requested level, sub-pixel (collapse), dumbbells whose corridor is below a coarse pixel (split), with holes, (partly) outside the grid) " +
 		"x {NetherlandsRDNewQuad, WebMercatorQuad} x 1-3 distinct ids, in a quarter of the cases one of them listed two or three times anywhere in the list ([6,5,6], [5,5], [4,7,7,7]) x page size {default, 1..7} x keep/ignore-outside/reverse flags (long names or aliases) x target paths (12 fixed shapes + random stems over [abgkp.-_09GP] with extensions {.gpkg,'',.pkg,.g,.GPKG,'.',.sqlite}) " +
 		"(relative, ./, nested, dots in directories, several dots, no extension, hidden file, unclean a//b and a/../b, absolute) x " +
 		"{no pre-existing files, overwrite on/off | pre-existing files with other content + overwrite | pre-existing + no overwrite (fails) | invalid tile matrix set or ids | missing source}; " +
@@ -1252,7 +1378,7 @@ func runC13(c *hc.Ctx) error {
 	c.Sum.Oracle = "exit status; exactly one GeoPackage per DISTINCT requested id (an id listed more than once counts once: exit 0, every file complete) at the path with _<id> inserted before the extension and no other new file; per file the source's tables in order; " +
 		"polygon / multipolygon tables: per source feature in source order the attributes (date/time cells read raw from the target and compared with the source value as INSTANTS, to the nanosecond: the unchanged tool already rewrites their text layout) and EXACTLY the geometry snap.SnapPolygon returns for that id under the given flags " +
 		"(one polygon, or a multipolygon when several; multipolygon parts merged in part order; omitted when nothing is returned), other tables row-for-row copies; " +
-		"rtree entries = non-empty geometries; with -overwrite no table or row of an earlier file survives; invalid tile matrix set / ids or a missing source: non-zero exit, no file created, removed or changed; " +
+		"rtree entries = non-empty geometries; recorded extent of every table = bounding box of the geometries written to it (NULL if none), whatever the source records; a table whose source z / m is 'optional' is processed like any other; with -overwrite no table or row of an earlier file survives; invalid tile matrix set / ids or a missing source: non-zero exit, no file created, removed or changed; " +
 		"library panic (outside the grid without -iog): non-zero exit; the -race build reports no data race"
 	c.Sum.Partial = "urfave/cli, the file system, package path / fmt.Sprintf, SQLite and the GeoPackage library are modelled, not verified; the Snap and Pipe models enter as parameters (their theorems are C01-C11)"
 	c.Sum.TrustedBase = []string{
@@ -1302,10 +1428,10 @@ func runC13(c *hc.Ctx) error {
 		if c.Search {
 			n *= 3
 		}
-		classes := []string{"fresh", "fresh", "fresh", "fresh", "pre-existing + overwrite", "pre-existing + overwrite", "pre-existing, no overwrite", "invalid tms", "no source"}
+		classes := []string{"fresh", "fresh", "fresh", "fresh", "pre-existing + overwrite", "pre-existing + overwrite", "pre-existing, no overwrite", "invalid tms", "no source", "degenerate polygons + keep"}
 		for i := 0; i < n; i++ {
 			cl := classes[c.Rng.Intn(len(classes))]
-			if i < 9 {
+			if i < len(classes) {
 				cl = classes[i]
 			}
 			cases = append(cases, genC13Case(c.Rng, len(cases), cl))
@@ -1372,6 +1498,17 @@ func runC13(c *hc.Ctx) error {
 					ntime++
 				}
 			}
+		}
+		degenerate := false
+		for _, t := range k.Tables {
+			c.Count("source records extent: " + t.Spec.SrcExtentMode)
+			c.Count(fmt.Sprintf("source table z=%d m=%d", t.Spec.Z, t.Spec.M))
+			for _, f := range t.Feats {
+				degenerate = degenerate || strings.Contains(f.Shape, "degenerate")
+			}
+		}
+		if degenerate {
+			c.Count(fmt.Sprintf("cases with source polygons without area (ring of one or two points), keep flag %v", k.Keep))
 		}
 		if ntime > 0 {
 			c.Count("cases with date/time attribute columns (DATE / DATETIME / TIMESTAMP) in a non-empty table")
